@@ -285,6 +285,7 @@ async fn rig_case(ty: &str, transport: &str, prefix: &str, how: &str) -> Finding
 async fn mirror(ctx: &mut Ctx, ty: &str, state: &str, how: &str, case: &Value) {
     let mut sock = Sock::new(ty, None);
     let mut peers = Vec::new();
+    let mut stalled_join = None;
     for k in 0..2 {
         match Peer::attach(&sock, peer_type_for(ty), Some(format!("m{k}").as_bytes())).await {
             Ok(p) => peers.push(p),
@@ -356,6 +357,22 @@ async fn mirror(ctx: &mut Ctx, ty: &str, state: &str, how: &str, case: &Value) {
                 ctx.count("mirror_stalled_peer_with_data_queued");
             }
         }
+        "join-stalled-in-announcement" => {
+            // SUB with a large subscription set; a publisher completes its handshake and then
+            // does not read: its registration is parked in the middle of being told the set
+            for k in 0..300 {
+                let topic = format!("{k:04}-{}", "t".repeat(300));
+                let _ = sim::complete(sock.subscribe(&topic)).await;
+            }
+            let (conn, r, w) = crate::pipe::Conn::new();
+            conn.feed(&crate::refcodec::handshake(peer_type_for(ty), Some(b"slow-joiner")));
+            conn.set_credit(Some(200));
+            let mut att = sim::Managed::new(crate::sock::attach_future(sock.backend(), r, w));
+            if matches!(att.drive().await, Ok(None)) {
+                ctx.count("mirror_join_parked_in_announcement");
+            }
+            stalled_join = Some((conn, att));
+        }
         _ => {}
     }
     match how {
@@ -373,6 +390,19 @@ async fn mirror(ctx: &mut Ctx, ty: &str, state: &str, how: &str, case: &Value) {
             }
         }
         _ => drop(sock),
+    }
+    if let Some((conn, att)) = stalled_join.take() {
+        // the caller of the parked registration gives up as well
+        drop(att);
+        sim::settle().await;
+        if !conn.released_both() {
+            ctx.violation_with(
+                &format!("C17/mirror/{how}/connection-not-released/{ty}/{state}"),
+                format!("the connection whose registration was parked is still held after {how}: reader dropped={}, writer dropped={}", conn.reader_dropped(), conn.writer_dropped()),
+                case.clone(),
+            );
+            return;
+        }
     }
     sim::settle().await;
     for (k, p) in peers.iter().enumerate() {
@@ -400,6 +430,47 @@ async fn mirror(ctx: &mut Ctx, ty: &str, state: &str, how: &str, case: &Value) {
     ctx.count("mirror_released");
 }
 
+/// A listener whose accept() failed for a while (descriptor table full) and recovered is
+/// closed / dropped like any other: endpoint refused, IPC file gone. (Child process of C18.)
+fn accept_errors_then_close(ctx: &mut Ctx, case: &Value) {
+    use std::process::{Command, Stdio};
+    let (ty, transport, how) = (s(case, "ty").to_string(), s(case, "transport").to_string(), s(case, "how").to_string());
+    let exe = std::env::current_exe().expect("current_exe");
+    let out = Command::new(exe)
+        .args(["child", "acceptfail", &ty, &transport, "0"])
+        .env("ACCEPTFAIL_THEN", &how)
+        .stdout(Stdio::piped())
+        .stderr(Stdio::null())
+        .output();
+    let text = match out {
+        Ok(o) => String::from_utf8_lossy(&o.stdout).into_owned(),
+        Err(e) => {
+            ctx.inconclusive(format!("C17 accept errors: cannot run child: {e}"));
+            return;
+        }
+    };
+    let Some(line) = text.lines().find(|l| l.starts_with("ACCEPTFAIL ")) else {
+        ctx.inconclusive(format!("C17 accept errors {ty}/{transport}: {}", text.lines().last().unwrap_or("no output")));
+        return;
+    };
+    let v: Value = serde_json::from_str(&line["ACCEPTFAIL ".len()..]).unwrap_or(Value::Null);
+    if u(&v, "accept_errors_reported") == 0 {
+        ctx.count("accept_error_episodes_not_reached");
+        return;
+    }
+    let ac = &v["after_close"];
+    ctx.count("closed_after_accept_errors");
+    if ac["ipc_file_left"].as_bool().unwrap_or(false) {
+        ctx.violation_with(
+            &format!("C17/{how}/ipc-file-left/{ty}"),
+            format!("{ty} over {transport}: accept() had failed for a while ({} failures reported) and recovered; after {how} the socket file still exists", u(&v, "accept_errors_reported")),
+            case.clone(),
+        );
+    } else if !ac["refused"].as_bool().unwrap_or(true) && v["canary_ok"].as_bool().unwrap_or(false) {
+        ctx.violation_with(&format!("C17/{how}/listener-still-accepting/{transport}"), format!("{ty}: after accept errors and {how} a fresh connect is accepted"), case.clone());
+    }
+}
+
 impl Prop for C17 {
     fn id(&self) -> &'static str {
         "C17"
@@ -407,6 +478,12 @@ impl Prop for C17 {
 
     fn cases(&self, tier: Tier, seed: u64) -> Vec<Value> {
         let mut v = Vec::new();
+        for how in ["close", "drop"] {
+            v.push(json!({"kind": "mirror", "ty": "SUB", "state": "join-stalled-in-announcement", "how": how}));
+            for (ty, transport) in [("PULL", "ipc"), ("REP", "ipc"), ("ROUTER", "ipc")] {
+                v.push(json!({"kind": "accept_errors_then", "ty": ty, "transport": transport, "how": how}));
+            }
+        }
         for ty in ALL_TYPES {
             for state in ["idle", "recv-pending-dropped", "after-traffic", "peer-stalled-with-full-buffer", "duplicate-identity-replaced"] {
                 for how in ["close", "drop"] {
@@ -433,6 +510,11 @@ impl Prop for C17 {
         let ty = s(case, "ty").to_string();
         ctx.eval(hash_str(&case.to_string()), true);
         match s(case, "kind") {
+            "accept_errors_then" => {
+                ctx.eval(hash_str(&case.to_string()), true);
+                ctx.sample("accept_errors_then", || case.clone());
+                accept_errors_then_close(ctx, case);
+            }
             "mirror" => {
                 ctx.count("mirror_cases");
                 ctx.sample("mirror", || case.clone());
@@ -477,6 +559,7 @@ impl Prop for C17 {
     fn floors(&self, _tier: Tier) -> Vec<(&'static str, u64)> {
         vec![
             ("ports_bound_again_after_the_socket_was_gone", 100),
+            ("closed_after_accept_errors", 4),
             ("mirror_cases", 90),
             ("mirror_connection_replaced_by_same_identity", 18),
             ("mirror_stalled_peer_with_data_queued", 10),
